@@ -162,25 +162,31 @@ def interleaved_shape(tokens):
 
 
 def chain_shape(tokens):
-    """same-time group: -ej a b, then -ej b c (b's own join consumes a's bookkeeping entry), then an
-    -es / -ej that moves the lineages of c"""
+    """same-time group: -ej a b, then -ej b c (b's own join consumes a's bookkeeping entry), and either an
+    -es / -ej afterwards that moves the lineages of c, or an -es of b between the two joins (the lineages that
+    arrived in b from a then miss b's split)"""
     so = split_options(tokens)
     evs = sorted([(event_time(o), k, o) for k, o in enumerate(so) if event_time(o) is not None], key=lambda x: x[0])
-    group_t, received, targets = None, set(), set()
+    group_t, received, targets, split_after_receive = None, set(), set(), set()
     for t, _, o in evs:
         if t != group_t:
-            group_t, received, targets = t, set(), set()
+            group_t, received, targets, split_after_receive = t, set(), set(), set()
         try:
             if o[0] == "-ej":
                 a, b = int(o[2]), int(o[3])
                 if a in targets:
                     return True
+                if a in split_after_receive:
+                    return True
                 if a in received:
                     targets.add(b)
                 received.add(b)
             elif o[0] == "-es":
-                if int(o[2]) in targets:
+                i = int(o[2])
+                if i in targets:
                     return True
+                if i in received:
+                    split_after_receive.add(i)
         except (ValueError, IndexError):
             return False
     return False
@@ -260,6 +266,12 @@ def judge(ctx, cmd, code, reps, stats, probe_of=None):
                         shape = " [interleaved same-time -es/-ej pairs]"
                     elif chain_shape(cmd.tokens) and why.startswith("lineage movements"):
                         shape = " [chain of same-time joins followed by a split/join of its target]"
+                    elif why.startswith("lineage movements"):
+                        # no listed shape: is the command at least outside the fragment on which from_ms is PROVED right
+                        # (fromMs_sem2: Tame2, fromMs_sem3: Tame3)?  Inside them, a wrong result contradicts the theorem and is never attributed.
+                        tr = ctx.driver.batch([{"op": "ms_tame", "tokens": cmd.tokens}])[0]
+                        if "ok" in tr and not tr["ok"]["tame2"] and not tr["ok"]["tame3"]:
+                            shape = " [same-time -es/-ej group outside the proved fragments Tame2 and Tame3]"
                     ctx.violation("from_ms: graph differs from the ms semantics" + shape + ": " + why.split(":")[0],
                                   cmd.case(), detail={"difference": why}, python=cmd.repro())
                 else:
